@@ -614,7 +614,88 @@ def check_timing(case, stats=None):
         stats.case(common.chash(script), {"timing": script["flavour"], "rt": script["rt"], "refused_dials_first": len(script["dials"]) - 1, "silent": script["silent_from"] is not None}, labels=("timing",))
 
 
+TABLE_VERSIONS = ["1.4", "1.4.2", "1.5", "2.0", "2.0.5", "2.1", "2.2", "2.3"]
+TABLE_ORDERS = [TABLE_VERSIONS, TABLE_VERSIONS[::-1], ["2.0.5", "1.4", "2.3", "1.5", "2.1", "1.4.2", "2.2", "2.0"], ["1.5", "2.2", "1.4.2", "2.0", "2.3", "2.1", "1.4", "2.0.5"]]
+
+
+def child_matrix(order):
+    """In a process whose library modules are freshly imported, children of every type are validated under the version
+    strings of `order`, in that order: {version: {(child type, value type): accepted}}."""
+    import importlib
+    import sys
+
+    from vf.ref import tables as T
+
+    for name in [m for m in sys.modules if m == "mysensors" or m.startswith("mysensors.")]:
+        del sys.modules[name]
+    importlib.import_module("mysensors")
+    from mysensors.const import get_const
+    from mysensors.sensor import ChildSensor
+
+    top = T.MAX_SUB["2.2"][T.SET]
+    out = {}
+    for version in order:
+        const = get_const(version)
+        floor = M.floor_version(version)
+        row = out[version] = {}
+        for pres in const.Presentation:
+            child = ChildSensor(0, pres)
+            try:
+                child.validate(version, {})
+                schema = child.get_schema(version)  # (built anew by every validate call: one build per child type here)
+            except Exception:  # pylint: disable=broad-except
+                schema = None
+            for vt in range(top + 1):
+                value = T.exemplars(T.payload_rule(floor, T.SET, vt))[0] if vt <= T.MAX_SUB[floor][T.SET] else "1"
+                try:
+                    schema({vt: value})
+                    row[int(pres), vt] = True
+                except Exception:  # pylint: disable=broad-except
+                    row[int(pres), vt] = False
+    return out
+
+
+def check_tables(case, stats=None):
+    """Which value types a child of a given type takes is selected by the version string alone: not by which
+    other versions were used earlier in the process, and identically for every spelling of one version."""
+    from vf.ref import tables as T
+
+    first = None
+    for order in case["orders"]:
+        got = child_matrix(order)
+        for version, row in got.items():
+            floor = M.floor_version(version)
+            beyond = sorted(k for k, ok in row.items() if ok and k[1] > T.MAX_SUB[floor][T.SET])
+            if beyond:
+                raise Violation("version_tables_contaminated", case, f"validated in the order {order}: a child of type {beyond[0][0]} validated as version {version!r} takes value type {beyond[0][1]}, which {floor} does not define")
+            same = got.get(floor)
+            if same is not None and same != row:
+                diff = sorted(k for k in row if same.get(k) != row[k])[:3]
+                raise Violation("version_spelling_selects_other_tables", case, f"validated in the order {order}: child validation as {version!r} differs from {floor!r} at (child type, value type) {diff}")
+        if first is None:
+            first = (order, got)
+        elif got != first[1]:
+            version = [v for v in got if got[v] != first[1][v]][0]
+            diff = sorted(k for k in got[version] if got[version][k] != first[1][version][k])[:3]
+            raise Violation("version_behaviour_depends_on_history", case, f"child validation as {version!r} differs at (child type, value type) {diff} between a process that used the versions in the order {first[0]} and one that used {order}")
+    if stats is not None:
+        stats.evaluations += sum(len(r) for r in first[1].values()) * len(case["orders"])
+        stats.case(f"tables:{len(case['orders'])}", {"kind": "tables", "orders": len(case["orders"]), "cells_per_order": sum(len(r) for r in first[1].values())}, labels=("child-tables",))
+
+
+def _tables_worker(case):
+    common.setup_path()
+    stats = common.Stats()
+    try:
+        check_tables(case, stats)
+    except Violation as v:
+        stats.violation(v.clause, v.case, v.detail)
+    return stats
+
+
 def check_case(case, stats=None):
+    if case["kind"] == "tables":
+        return check_tables(case, stats)
     if case["kind"] == "timing":
         return check_timing(case, stats)
     if case["kind"] == "pair":
@@ -652,6 +733,8 @@ def main(tier):
     for stats in common.pool_map(_junk_worker, [(common.shard_seed(common.seed(), i), n) for i in range(8 if tier == "quick" else 16)]):
         run.stats.merge(stats)
     for stats in common.pool_map(_timing_worker, timing_cases()):
+        run.stats.merge(stats)
+    for stats in common.pool_map(_tables_worker, [{"kind": "tables", "orders": TABLE_ORDERS}]):
         run.stats.merge(stats)
     bucket(run.stats)
     return run.finish()
